@@ -513,7 +513,7 @@ impl RngCore for Recorder {
 
 /// Specification SamplerZ on a recorded byte log, assuming the 9+1+7 consumption pattern.
 /// Returns None if the log does not fit the pattern.
-fn spec_sampler_on_log(mu: f64, sigma: f64, sigmin: f64, log: &[u8]) -> Option<i64> {
+pub fn spec_sampler_on_log(mu: f64, sigma: f64, sigmin: f64, log: &[u8]) -> Option<i64> {
     if log.is_empty() || log.len() % 17 != 0 {
         return None;
     }
